@@ -362,3 +362,224 @@ def _builtin_names(repo):
         f"def undefBuiltin{k.capitalize()}s : List String := [" + ", ".join(lean_str(n) for n in v) + "]"
         for k, v in out.items())
     return out, lean
+
+
+# ---------------------------------------------------------------------------- argument conversion
+ARGTYPES = "minijinja/src/value/argtypes.rs"
+
+
+def norm_type(t):
+    """`Option<Cow<'_, str>>` -> `Option<Cow<str>>`, `StringInput<'_>` -> `StringInput`"""
+    t = re.sub(r"\s+", "", t)
+    t = re.sub(r"'\w+,?", "", t)          # lifetimes
+    t = t.replace("<>", "")
+    t = t.replace("&mut", "&mut ")
+    return t
+
+
+def impl_blocks(src):
+    """[(type text, body)] of every `impl ... ArgType<'a> for T {`"""
+    out = []
+    for m in re.finditer(r"impl\s*(?:<[^{]*?>)?\s*ArgType<'a>\s+for\s+([^{]+?)\s*\{", src):
+        i = m.end() - 1
+        depth, j = 0, i
+        while j < len(src):
+            if src[j] == "{":
+                depth += 1
+            elif src[j] == "}":
+                depth -= 1
+                if depth == 0:
+                    break
+            j += 1
+        out.append((m.group(1).strip(), src[i + 1:j]))
+    return out
+
+
+@item("C12_ARG_TYPES")
+def _arg_types(repo):
+    """for every ArgType impl: 1 = its conversion with a state calls assert_value_not_undefined
+    (then converts mode-independently), 2 = a wrapper that forwards the state to its element type,
+    0 = never consults the mode (the state is ignored or dropped)."""
+    src = strip_comments(read(repo, ARGTYPES))
+    rows = {}
+    for ty, body in impl_blocks(src):
+        name = norm_type(ty)
+        name = re.sub(r"\bwhere\b.*", "", name)
+        direct = "assert_value_not_undefined" in body
+        forwards = bool(re.search(r"T::from_state_and_value\w*\(\s*state\b", body))
+        if direct and forwards:
+            raise KeyError(f"ArgType impl for {name} both checks and forwards")
+        if "undefined_behavior" in body and not direct:
+            raise KeyError(f"ArgType impl for {name} consults the mode in an unknown way")
+        code = 1 if direct else (2 if forwards else 0)
+        # the owned conversion (used for the elements of a Vec<T>) checks only if it is overridden
+        owned = 0
+        mo = re.search(r"fn\s+from_state_and_value_owned_mut\s*\(", body)
+        if mo and "assert_value_not_undefined" in body[mo.start():mo.start() + 600]:
+            owned = 1
+        if name in rows and rows[name] != (code, owned):
+            raise KeyError(f"two ArgType impls for {name}")
+        rows[name] = (code, owned)
+    # the helper is called nowhere else in the file
+    n_calls = len(re.findall(r"assert_value_not_undefined", src))
+    n_in_impls = sum(b.count("assert_value_not_undefined") for _, b in impl_blocks(src))
+    sinput = fn_body(src, r"impl<'a>\s*StringInput<'a>\s*\{")
+    if n_calls != n_in_impls + sinput.count("assert_value_not_undefined"):
+        raise KeyError("assert_value_not_undefined is called outside the ArgType impls / StringInput::new")
+    prims = re.findall(r"primitive_(?:int_)?try_from!\(\s*(\w+)", src)
+    if "$ty" not in rows or not prims:
+        raise KeyError("primitive ArgType impls")
+    code = rows.pop("$ty")
+    for p in prims:
+        rows[p] = code
+    need = ["String", "Cow<str>", "StringInput", "Option<T>", "Rest<T>", "Vec<T>", "Value", "&Value", "&str", "Kwargs"]
+    for k in need:
+        if k not in rows:
+            raise KeyError(f"no ArgType impl found for {k}")
+    items = sorted(rows.items())
+    lean = ("/-- (type, conversion with a state: 0 never consults the mode / 1 assert_value_not_undefined / 2 forwards the\n"
+            "    state to the element type, owned conversion (elements of a Vec): 0 / 1) -/\n"
+            "def undefArgTypes : List (String × Nat × Nat) := [" + ", ".join(f"({lean_str(k)}, {v[0]}, {v[1]})" for k, v in items) + "]")
+    return {k: list(v) for k, v in items}, lean
+
+
+def rust_fns(src):
+    """{name: (params text, body)} of every `fn name(...) ... {` in src (comments stripped)"""
+    out = {}
+    for m in re.finditer(r"\bfn\s+(\w+)\s*(?:<[^>(]*>)?\s*\(", src):
+        i = m.end() - 1
+        depth, j = 0, i
+        while j < len(src):
+            if src[j] == "(":
+                depth += 1
+            elif src[j] == ")":
+                depth -= 1
+                if depth == 0:
+                    break
+            j += 1
+        params = src[i + 1:j]
+        k = j
+        while k < len(src) and src[k] not in "{;":
+            k += 1
+        if k >= len(src) or src[k] == ";":
+            continue
+        depth, e = 0, k
+        while e < len(src):
+            if src[e] == "{":
+                depth += 1
+            elif src[e] == "}":
+                depth -= 1
+                if depth == 0:
+                    break
+            e += 1
+        out.setdefault(m.group(1), (params, src[k + 1:e]))
+    return out
+
+
+def split_params(params):
+    out, depth, cur = [], 0, []
+    for ch in params:
+        if ch in "<([":
+            depth += 1
+        elif ch in ">)]":
+            depth -= 1
+        if ch == "," and depth == 0:
+            out.append("".join(cur)); cur = []
+        else:
+            cur.append(ch)
+    if "".join(cur).strip():
+        out.append("".join(cur))
+    return [p.strip() for p in out if p.strip()]
+
+
+REACH = [("undefined_behavior", r"undefined_behavior\s*\(\s*\)"),
+         ("format", r"\.format\s*\(\s*(?:state|v\s*,\s*state)"),
+         ("call", r"\.call\s*\(\s*state"),
+         ("StringInput::new", r"StringInput::new\s*\(")]
+
+
+def registered(repo):
+    """[(kind, template name, module, fn name)] from defaults.rs"""
+    src = strip_comments(read(repo, "minijinja/src/defaults.rs"))
+    out = []
+    for kind, fn, mod in (("filter", "build_builtin_filters", "filters"), ("test", "build_builtin_tests", "tests"),
+                          ("function", "build_globals", "functions")):
+        body = fn_body(src, r"fn\s+%s\s*\(\s*\)[^{]*\{" % fn)
+        var = dict(re.findall(r"let\s+(\w+)\s*=\s*Value::from_function\(\s*%s::(\w+)\s*\)" % mod, body))
+        for m in re.finditer(r"rv\s*\.\s*insert\(\s*\"([^\"]+)\"\s*\.into\(\)\s*,\s*([^;]*?)\)\s*;", body, re.S):
+            name, expr = m.group(1), re.sub(r"\s+", "", m.group(2))
+            mm = re.match(r"Value::from_function\(%s::(\w+)" % mod, expr) or re.match(r"BoxedFunction::new\(%s::(\w+)" % mod, expr)
+            if mm:
+                out.append((kind, name, mod, mm.group(1)))
+                continue
+            v = re.match(r"(\w+)(?:\.clone\(\))?$", expr)
+            if v and v.group(1) in var:
+                out.append((kind, name, mod, var[v.group(1)]))
+                continue
+            raise KeyError(f"cannot resolve the function registered as {kind} `{name}`: {expr[:40]}")
+    return out
+
+
+@item("C12_BUILTIN_SIGS")
+def _builtin_sigs(repo):
+    """for every registered builtin: the argument types in order (State parameters dropped), and
+    how its body can reach the mode: directly (`undefined_behavior()` + which helpers), through
+    `.format(state)` / `.call(state, ..)` (nested formatter / filter / test), transitively through
+    the local functions it calls."""
+    srcs, fns = {}, {}
+    for mod in ("filters", "tests", "functions"):
+        srcs[mod] = strip_comments(read(repo, f"minijinja/src/{mod}.rs"))
+        fns[mod] = rust_fns(srcs[mod])
+    rows = []
+    for kind, name, mod, fn in registered(repo):
+        if fn not in fns[mod]:
+            raise KeyError(f"fn {mod}::{fn} not found")
+        params, body = fns[mod][fn]
+        types = []
+        for p in split_params(params):
+            mm = re.match(r"(?:mut\s+)?\w+\s*:\s*(.+)$", p, re.S)
+            if not mm:
+                raise KeyError(f"parameter `{p}` of {fn}")
+            t = norm_type(mm.group(1)).replace("crate::value::", "")
+            if t in ("&State", "&mut State"):
+                continue
+            types.append(t)
+        # transitive closure over local functions
+        seen, todo, reach, helpers = set(), [fn], set(), []
+        while todo:
+            f = todo.pop()
+            if f in seen or f not in fns[mod]:
+                continue
+            seen.add(f)
+            b = fns[mod][f][1]
+            for tag, rx in REACH:
+                if re.search(rx, b):
+                    reach.add(tag)
+            helpers += [h for h, _ in calls_in(b)]
+            for callee in set(re.findall(r"(?<![\.\w:])(\w+)\s*\(", b)):   # bare calls only (no methods / paths)
+                if callee in fns[mod] and callee != f:
+                    todo.append(callee)
+        rows.append((kind, name, fn, types, sorted(reach), helpers))
+    if len(rows) < 90:
+        raise KeyError("builtin signatures")
+
+    def ls(xs):
+        return "[" + ", ".join(lean_str(x) for x in xs) + "]"
+
+    def parts(t):
+        """`Option<Rest<X>>` -> (["Option", "Rest"], "X")"""
+        ws = []
+        while True:
+            m = re.match(r"(Option|Rest|Vec)<(.*)>$", t)
+            if not m:
+                return ws, t
+            ws.append(m.group(1)); t = m.group(2)
+
+    def lt(t):
+        ws, b = parts(t)
+        return f"({ls(ws)}, {lean_str(b)})"
+    lean = ("/-- (kind, registered name, argument types in order as (wrappers, base type), how the body can reach the mode,\n"
+            "    helper calls) -/\n"
+            "def undefBuiltinSigs : List (String × String × List (List String × String) × List String × List String) := [\n  "
+            + ",\n  ".join(f"({lean_str(k)}, {lean_str(n)}, [{', '.join(lt(x) for x in t)}], {ls(r)}, {ls(h)})" for k, n, f, t, r, h in rows) + "]")
+    return [{"kind": k, "name": n, "fn": f, "types": t, "reach": r, "helpers": h} for k, n, f, t, r, h in rows], lean
